@@ -205,6 +205,9 @@ class Array(Environment):
 
     class ArrayRow(Macro):
         """ Table row class """
+        # source of border-only rows that were merged into this row
+        sourceBefore = ''
+        sourceAfter = ''
         endToken = None
 
         def digest(self, tokens):
@@ -231,12 +234,14 @@ class Array(Environment):
             if not argSource:
                 argSource = ' '
             s.append('%sbegin{%s}%s' % (escape, name, argSource))
+            s.append(self.sourceBefore)
             for cell in self:
                 s.append(sourceChildren(cell, par=not(self.parentNode.mathMode)))
                 if cell.endToken is not None:
                     s.append(cell.endToken.source)
             if self.endToken is not None:
                 s.append(self.endToken.source)
+            s.append(self.sourceAfter)
             s.append('%send{%s}' % (escape, name))
             return ''.join(s)
 
@@ -482,10 +487,22 @@ class Array(Environment):
             # If the row is only here to apply borders, apply the
             # borders to the adjacent row.  Empty rows are deleted later.
             if row.isBorderOnly:
+                # The row is deleted below, but the rules it holds are part
+                # of the source of the array
+                rules = []
+                for cell in row:
+                    rules.append(sourceChildren(cell, par=False))
+                    if cell.endToken is not None:
+                        rules.append(cell.endToken.source)
+                if row.endToken is not None:
+                    rules.append(row.endToken.source)
+                rules = ''.join(rules)
                 if i == 0 and lastrow:
                     row.applyBorders(self[1], 'top')
+                    self[1].sourceBefore = rules
                 elif prev is not None:
                     row.applyBorders(prev, 'bottom')
+                    prev.sourceAfter = prev.sourceAfter + rules
                 emptyrows.insert(0, i)
             else:
                 row.applyBorders()
@@ -599,12 +616,14 @@ class Array(Environment):
             s.append('%sbegin{%s}%s' % (escape, name, argSource))
             if self.hasChildNodes():
                 for row in self:
+                    s.append(getattr(row, 'sourceBefore', ''))
                     for cell in row:
                         s.append(sourceChildren(cell, par=not(self.mathMode)))
                         if cell.endToken is not None:
                             s.append(cell.endToken.source)
                     if row.endToken is not None:
                         s.append(row.endToken.source)
+                    s.append(getattr(row, 'sourceAfter', ''))
                 s.append('%send{%s}' % (escape, name))
             return ''.join(s)
 
